@@ -271,7 +271,7 @@ class Check:
         for key, lst in sorted(new.items()):
             f, case, ev = lst[0]
             # determinism: the failing case must fail the same way when re-run on fresh objects
-            again = _eval_one((self.modname, ev, case))
+            again = _eval_one((self.modname, ev, case)) if not f.get("volatile") else {"fails": [f]}
             keys2 = {f"{self.pid}/{g['key']}" for g in again["fails"]}
             if key not in keys2:
                 print(
